@@ -18,6 +18,9 @@ RULE = ('reciprocal_grid/realspace_grid: 1-3 axes x sizes 1..7 (even and odd) x 
         'A case is non-trivial when the input array is not identically zero / the shape has a transformed axis; '
         'distinct by (configuration, values).')
 ASSUMPTIONS = [
+    'Q vs R: for the grid/frequency functions the Q run is PROVED to be the rational restriction of the R model '
+    '(C18/Transfer.v); for the parts involving cos/sin/sqrt (phases, kernel, DFT values) the link between the Q '
+    'instance (CisQ.v) and the R instance is an assumption',
     'exact arithmetic: the model is the unrounded transform; float results are compared with tolerance 1e-9 '
     '(float64) / 2e-3 (float32) on small-integer inputs',
     'the 1-d passes inside np.fft / FFTW are not modelled individually: fftn is the composition of naive 1-d DFTs '
